@@ -399,7 +399,13 @@ func (e *Engine) nilnessAt(v ssa.Value, at ssa.Instruction) retClass {
 		if cls >= 0 {
 			return cls
 		}
-	case *ssa.Extract, *ssa.Parameter, *ssa.UnOp, *ssa.TypeAssert:
+	case *ssa.UnOp:
+		// a sentinel error: a package-level variable of the repository that is written only by its package initialiser,
+		// with an error constructor (`var ErrX = errors.New(…)` / fmt.Errorf(…))
+		if g, ok := x.X.(*ssa.Global); ok && x.Op == token.MUL && e.sentinelError(g) {
+			return retNonNilErr
+		}
+	case *ssa.Extract, *ssa.Parameter, *ssa.TypeAssert:
 	}
 	// dominating nil tests on the same SSA value
 	b := at.Block()
@@ -1119,4 +1125,78 @@ func cmpZero(s signSet, op token.Token) (known, val bool) {
 		return true, false
 	}
 	return false, false
+}
+
+// sentinelError: g is a package-level error variable stored exactly once, in its package's init, from an error
+// constructor call.
+func (e *Engine) sentinelError(g *ssa.Global) bool {
+	if e.sentinels == nil {
+		e.sentinels = map[*ssa.Global]int{}
+	}
+	if v, ok := e.sentinels[g]; ok {
+		return v == 2
+	}
+	e.sentinels[g] = 1
+	if g.Pkg == nil || !isRepoPath(g.Pkg.Pkg.Path()) {
+		return false
+	}
+	pt, ok := g.Type().(*types.Pointer)
+	if !ok || !isErrorType(pt.Elem()) {
+		return false
+	}
+	n, okAll := 0, true
+	for _, fn := range e.RepoFuncs {
+		AllInstrs(fn, func(in ssa.Instruction) {
+			st, ok := in.(*ssa.Store)
+			if !ok || st.Addr != ssa.Value(g) {
+				return
+			}
+			n++
+			if fn.Name() != "init" || fn.Pkg != g.Pkg {
+				okAll = false
+				return
+			}
+			v := st.Val
+			if mi, ok := v.(*ssa.MakeInterface); ok {
+				v = mi.X
+			}
+			call, ok := v.(*ssa.Call)
+			if !ok {
+				okAll = false
+				return
+			}
+			if f := call.Common().StaticCallee(); f == nil || !(f.String() == "errors.New" || f.String() == "fmt.Errorf") {
+				okAll = false
+			}
+		})
+	}
+	// the package initialiser may not be among RepoFuncs (synthetic): look at it directly
+	if n == 0 {
+		if initFn := g.Pkg.Func("init"); initFn != nil {
+			AllInstrs(initFn, func(in ssa.Instruction) {
+				st, ok := in.(*ssa.Store)
+				if !ok || st.Addr != ssa.Value(g) {
+					return
+				}
+				n++
+				v := st.Val
+				if mi, ok := v.(*ssa.MakeInterface); ok {
+					v = mi.X
+				}
+				call, ok := v.(*ssa.Call)
+				if !ok {
+					okAll = false
+					return
+				}
+				if f := call.Common().StaticCallee(); f == nil || !(f.String() == "errors.New" || f.String() == "fmt.Errorf") {
+					okAll = false
+				}
+			})
+		}
+	}
+	if n == 1 && okAll {
+		e.sentinels[g] = 2
+		return true
+	}
+	return false
 }
